@@ -176,7 +176,11 @@ func vfRunScenario(t *testing.T, rec *vfRec, sc map[string]any) {
 	mm := NewMetrics(vm, "vf", time.Time{}, st, parsed.Interfaces)
 	ll := log.New(vfLogWriter{w: w}, "", 0)
 	cctx := NewContext(ll, mm, st)
-	handler := crhttp.NewHandler(ll, st, *parsed, nil)
+	// (as in a real deployment the API's configuration also lists an interface that advertises nothing - a monitored
+	// uplink - before the advertising ones; it shares the Interface values, and so the plugins, with the tasks)
+	hcfg := *parsed
+	hcfg.Interfaces = append([]config.Interface{{Name: "vfidle", Monitor: true}}, parsed.Interfaces...)
+	handler := crhttp.NewHandler(ll, st, hcfg, nil)
 
 	var (
 		termMu sync.Mutex
